@@ -138,7 +138,7 @@ int main(void) {
 	size_t nsend;
 
 	vdrv_case_secs = 120;
-	vdrv_init();
+	vdrv_init(); tm_watchdog(150);
 	c = vdrv_next_case(&len);
 	if (!c) return 0;
 	in.p = c; in.n = len; in.o = 0; in.bad = 0;
